@@ -21,6 +21,9 @@ type MapperFaults struct {
 	UnknownAt   []int `json:"unknown_at,omitempty"`    // MapType call indices that answer Unknown (inconsistent service)
 	NilMaps     bool  `json:"nil_maps,omitempty"`      // empty answers are nil maps instead of empty maps
 	YieldInCall bool  `json:"yield_in_call,omitempty"` // callbacks are scheduler yield points (schedsim)
+	// StoredMaps: the service answers from maps it keeps (a cache), handing out the same map values
+	// on every call, as a real meta store does. The library must not write to them.
+	StoredMaps bool `json:"stored_maps,omitempty"`
 }
 
 var ErrInjected = errors.New("injected: meta store unavailable")
@@ -32,6 +35,8 @@ type Mapper struct {
 	fdCalls, ctCalls, mtCalls int
 	Log    []string
 	Fired  map[string]int
+	storedF map[string]map[string]influxql.DataType
+	storedD map[string]map[string]struct{}
 }
 
 func NewMapper(s gen.Schema, f MapperFaults) *Mapper {
@@ -75,6 +80,12 @@ func (m *Mapper) FieldDimensions(mm *influxql.Measurement) (map[string]influxql.
 		m.Fired["mapper-error"]++
 		return nil, nil, ErrInjected
 	}
+	if m.F.StoredMaps && mm.Regex == nil {
+		if f, ok := m.storedF[mm.Name]; ok {
+			m.Fired["stored-maps"]++
+			return f, m.storedD[mm.Name], nil
+		}
+	}
 	fields := map[string]influxql.DataType{}
 	dims := map[string]struct{}{}
 	for _, ms := range Lookup(m.Schema, mm) {
@@ -97,7 +108,34 @@ func (m *Mapper) FieldDimensions(mm *influxql.Measurement) (map[string]influxql.
 			dims = nil
 		}
 	}
+	if m.F.StoredMaps && mm.Regex == nil {
+		if m.storedF == nil {
+			m.storedF = map[string]map[string]influxql.DataType{}
+			m.storedD = map[string]map[string]struct{}{}
+		}
+		m.storedF[mm.Name], m.storedD[mm.Name] = fields, dims
+	}
 	return fields, dims, nil
+}
+
+// StoredDiff reports how the maps the service keeps differ from its schema ("" if intact).
+func (m *Mapper) StoredDiff() string {
+	for name, f := range m.storedF {
+		wantF, wantT := Columns(m.Schema, &influxql.Measurement{Name: name})
+		if len(f) != len(wantF) {
+			return fmt.Sprintf("stored field map of %q has %d entries, schema has %d", name, len(f), len(wantF))
+		}
+		for k, t := range wantF {
+			if f[k].String() != t {
+				return fmt.Sprintf("stored field map of %q: %s is %s, schema says %s", name, k, f[k], t)
+			}
+		}
+		d := m.storedD[name]
+		if len(d) != len(wantT) {
+			return fmt.Sprintf("stored tag set of %q has %d entries, schema has %d", name, len(d), len(wantT))
+		}
+	}
+	return ""
 }
 
 func (m *Mapper) MapType(mm *influxql.Measurement, field string) influxql.DataType {
@@ -151,6 +189,14 @@ func (m *Mapper) CallType(name string, args []influxql.DataType) (influxql.DataT
 		return influxql.Unknown, fmt.Errorf("injected: cannot type %s()", name)
 	}
 	return CallTypeOf(name, args), nil
+}
+
+// ResetCalls restarts the per-call fault indices (after a history prelude) and returns how many
+// FieldDimensions calls the prelude made.
+func (m *Mapper) ResetCalls() int {
+	n := m.fdCalls
+	m.fdCalls, m.ctCalls, m.mtCalls = 0, 0, 0
+	return n
 }
 
 func (m *Mapper) LogString() string { return strings.Join(m.Log, ";") }
